@@ -163,6 +163,9 @@ def finish(bld, container_geom, lat_cell, fill_of_container, trcl=None,
         # the order of the cards inside a block is free in MCNP
         bld.rng.shuffle(deck.surfs)
         deck.tags.add('cards.unordered')
+    if bld.rng.random() < 0.25:
+        bld.rng.shuffle(deck.cells)
+        deck.tags.add('cells.unordered')
     return deck
 
 
